@@ -589,7 +589,7 @@ def flow_b(ctx, extra_units):
 
 EXPECTED_RULES = {"6.7.1p3-block-thread-local", "6.7.1p7-block-function-storage-class", "6.7.9p5-block-linkage-initializer",
                   "6.7p3-no-linkage-redeclared", "6.7p4-different-kind", "6.2.7p2", "6.7.1p3-thread-local-mismatch", "6.9p3-internal-redefined",
-                  "6.9p3-internal-used-undefined", "6.2.2p7", "6.9p5", "6.7.4p7"}
+                  "6.9p3-internal-used-undefined", "6.2.2p7", "6.9p5", "6.7.4p7", "asm-label-on-block-scope-declaration"}
 ALL_DEVS = {"ExternInheritsNoLinkage", "ThreadNoTentative", "ThreadMismatchNotDiagnosed", "InlineLateExternal", "NoUsedInternalUndefDiag"}
 # deviations of the shipped tree (DevsOn of the committed cfgs). ExternInheritsNoLinkage was repaired by /repo 82bd59f:
 # it is off, so the old behaviour is an unexplained VIOLATION again.
